@@ -353,9 +353,20 @@ def run(ctx):
     if ctx.quick:
         runs.append(("MCMatcher", "MCMatcher_quick.cfg", None, "quick families"))
     else:
-        runs.append(("MCMatcherFull", "MCMatcher_full.cfg", None, "full families"))
+        extra = None
+        cap = int(os.environ.get("VERIF_C09_FULL_PATS", "0"))     # smoke-testing the thorough path: first n patterns only
+        if cap:
+            full = open(os.path.join(vlib.SPECS, "MCMatcherFull.tla")).read()
+            full = full.replace("FullPats  == SetToSeq(", "FullPats  == SubSeq(SetToSeq(").replace(
+                "\\cup FamL \\cup FamD)", "\\cup FamL \\cup FamD), 1, %d)" % cap)
+            if "SubSeq(SetToSeq(" not in full or ", 1, %d)" % cap not in full:
+                raise Inconclusive("cannot cap MCMatcherFull")
+            extra = {"MCMatcherFull.tla": full}
+            ctx.note("thorough families capped to the first %d patterns (VERIF_C09_FULL_PATS)" % cap)
+        runs.append(("MCMatcherFull", "MCMatcher_full.cfg", extra, "full families"))
     runs.append(("MCMatcherWide", "MCMatcher_wide.cfg", None, "64 names"))
-    text, n_rp, n_rt = rand_module(ctx, 250 if ctx.quick else 4000, 30 if ctx.quick else 60)
+    n_rand = int(os.environ.get("VERIF_C09_RAND", "250" if ctx.quick else "4000"))
+    text, n_rp, n_rt = rand_module(ctx, n_rand, 30 if ctx.quick else 60)
     runs.append(("MCMatcherRand", "MCMatcher_rand.cfg", {"MCMatcherRand.tla": text}, "seeded deeper patterns"))
 
     results = vlib.pmap(lambda a: tlc_gen(ctx, a[0], a[1], a[3], extra=a[2]), runs, workers=3)
@@ -376,7 +387,7 @@ def run(ctx):
         "states": sum(r.distinct for r in results),
         "transitions": sum(r.generated for r in results),
         "traces_validated_against_impl": summary["match_calls"],
-        "exhaustive": True,
+        "exhaustive": not os.environ.get("VERIF_C09_FULL_PATS"),
         "tlc": [{"module": a[0], "config": a[1], "what": a[3], "states": r.distinct, "wall_s": round(r.wall, 1)} for a, r in zip(runs, results)],
         "invariants": INVS,
         "patterns": summary["patterns"], "trees": summary["trees"], "pairs_replayed": summary["pairs"],
